@@ -81,6 +81,7 @@ def run(P, R, tier):
     R.undecided += ["behaviour of the Fortran module body (no Fortran front end in the image: only its BIND(C) table, "
                     "dummy-argument counts and PARAMETER constants are checked)"]
     nullarg_rule(P, R)
+    selfcopy_rule(P, R)
     hdr = {d["q"]: d for d in P.decls.values() if d["file"] == "IPhreeqc.h"}
     cdefs = {f["q"]: f for f in P.functions.values() if f["file"] == "IPhreeqcLib.cpp" and f.get("externC") and "cls" not in f}
     fdefs = {f["q"]: f for f in P.functions.values() if f["file"] == "IPhreeqc_interface_F.cpp" and "cls" not in f}
@@ -1430,3 +1431,38 @@ def nullarg_rule(P, R):
                 R.ok(RULE, "%s(%s)" % (f["name"], pn), lib or "no read through the pointer in the method or the functions it forwards it to (file open / library call)")
     if n < 8:
         R.anchor_missing(RULE, "only %d text arguments of the API analysed" % n)
+
+
+def selfcopy_rule(P, R):
+    """The value cells of the API are VARs; CVar assignment and every accessor that hands out a cell go through VarCopy(dest, src), which
+    frees the destination before it reads the source.  When both are the same object the value is gone unless the function returns first:
+    on every path from the entry of VarCopy to the call that clears the destination there must be a test of `dest == src`.  The same
+    shape is checked for every project function that clears (VarClear / Clear) a parameter and afterwards reads another parameter of
+    the same pointer type."""
+    RULE = "C13.selfcopy"
+    R.rule(RULE, "a copy function that clears its destination before reading its source returns first when both are the same object", minimum=1)
+    n = 0
+    for k, g in sorted(P.functions.items(), key=lambda kv: kv[1]["q"]):
+        if not g.get("body") or len(g.get("pnames", [])) != 2:
+            continue
+        p0, p1 = g["pnames"]
+        t0, t1 = [t.replace("const ", "").replace(" ", "") for t in g["params"]]
+        if t0 != t1 or not t0.endswith("*") or t0 not in ("VAR*",):
+            continue
+        clears = [c for c in T.calls(g["body"]) if T.callee_name(c) in ("VarClear",) and c[4] and T.is_node(T.strip_casts(c[4][0])) and T.strip_casts(c[4][0])[0] == "Ref"
+                  and T.strip_casts(c[4][0])[3] == p0]
+        reads = [x for x in T.walk(g["body"]) if x[0] == "Member" and T.is_node(T.strip_casts(x[3])) and T.strip_casts(x[3])[0] == "Ref" and T.strip_casts(x[3])[3] == p1]
+        if not clears or not reads or min(r[1] for r in reads) < clears[0][1]:
+            continue
+        n += 1
+        inst = g["q"]
+        guard = [x for x in T.walk(g["body"]) if x[0] == "If" and x[1] < clears[0][1] and T.is_node(T.strip_casts(x[2])) and T.strip_casts(x[2])[0] == "Bin"
+                 and T.strip_casts(x[2])[2] == "==" and {T.text(T.strip_casts(x[2])[3]), T.text(T.strip_casts(x[2])[4])} == {p0, p1}
+                 and any(y[0] == "Return" for y in T.walk(x[3]))]
+        if guard:
+            R.ok(RULE, inst, "`%s == %s` returns before the destination is cleared (line %d)" % (p0, p1, guard[0][1]))
+        else:
+            R.violation(RULE, inst, "%s clears %s (line %d) and then reads %s without having excluded that both are the same object: copying a VAR onto itself (CVar a = a) "
+                        "loses the value" % (g["q"], p0, clears[0][1], p1), file=g["file"], line=clears[0][1], function=g["q"])
+    if n < 1:
+        R.anchor_missing(RULE, "VarCopy not found")
